@@ -14,6 +14,37 @@ static size_t VG_W;        /* witness byte index (arbitrary) */
  * ---------------------------------------------------------------------- */
 #ifndef VERIF_CLEANSE_MAX
 #define VERIF_CLEANSE_MAX 4096
+/* ------------------------------------------------------------------------
+ * layer A lemmas for the block xor and counter increment helpers (functional contracts;
+ * inside the CTR coverage jobs the same functions carry their ROLE contracts instead).
+ * ---------------------------------------------------------------------- */
+#ifndef VERIF_ROLE_CTR
+#define VXORB_CONTRACT(N) \
+    __CPROVER_requires(__CPROVER_is_fresh(input1, N) && __CPROVER_is_fresh(input2, N)) \
+    __CPROVER_requires(__CPROVER_is_fresh(output, N) || __CPROVER_pointer_equals(output, (void *)input1)) \
+    __CPROVER_assigns(__CPROVER_object_upto(output, N), VG_XA, VG_XB) \
+    __CPROVER_ensures(VG_W < N ==> ((const uint8_t *)output)[VG_W] == (uint8_t)(VG_XA ^ VG_XB))
+#define VXORB_ENTRY(N) \
+    if (VG_W < N) { VG_XA = ((const uint8_t *)input1)[VG_W]; VG_XB = ((const uint8_t *)input2)[VG_W]; }
+#define VC_skinny128_xor VXORB_CONTRACT(16)
+#define VE_skinny128_xor VXORB_ENTRY(16)
+#define VC_skinny64_xor VXORB_CONTRACT(8)
+#define VE_skinny64_xor VXORB_ENTRY(8)
+
+/* big-endian counter += inc modulo 2^(8*N), every carry chain and wrap-around */
+static vu128 VG_INC0;
+#define VC_skinny128_inc_counter \
+    __CPROVER_requires(__CPROVER_is_fresh(counter, 16) && inc <= 0xFF00 /* uint16_t accumulator: no overflow; call sites pass 1 */) \
+    __CPROVER_assigns(__CPROVER_object_upto(counter, 16), VG_INC0) \
+    __CPROVER_ensures(VBE128(counter) == VG_INC0 + inc)
+#define VE_skinny128_inc_counter VG_INC0 = VBE128(counter);
+#define VC_skinny64_inc_counter \
+    __CPROVER_requires(__CPROVER_is_fresh(counter, 8) && inc <= 0xFF00) \
+    __CPROVER_assigns(__CPROVER_object_upto(counter, 8), VG_INC0) \
+    __CPROVER_ensures(VBE64(counter) == ((VG_INC0 + inc) & (vu128)0xFFFFFFFFFFFFFFFFULL))
+#define VE_skinny64_inc_counter VG_INC0 = VBE64(counter);
+#endif /* !VERIF_ROLE_CTR */
+
 #endif
 #define VC_skinny_cleanse \
     __CPROVER_requires(size <= VERIF_CLEANSE_MAX && __CPROVER_is_fresh(ptr, size)) \
@@ -33,6 +64,37 @@ static size_t VG_W;        /* witness byte index (arbitrary) */
  * ---------------------------------------------------------------------- */
 #ifndef VERIF_XOR_MAX
 #define VERIF_XOR_MAX 128
+/* ------------------------------------------------------------------------
+ * layer A lemmas for the block xor and counter increment helpers (functional contracts;
+ * inside the CTR coverage jobs the same functions carry their ROLE contracts instead).
+ * ---------------------------------------------------------------------- */
+#ifndef VERIF_ROLE_CTR
+#define VXORB_CONTRACT(N) \
+    __CPROVER_requires(__CPROVER_is_fresh(input1, N) && __CPROVER_is_fresh(input2, N)) \
+    __CPROVER_requires(__CPROVER_is_fresh(output, N) || __CPROVER_pointer_equals(output, (void *)input1)) \
+    __CPROVER_assigns(__CPROVER_object_upto(output, N), VG_XA, VG_XB) \
+    __CPROVER_ensures(VG_W < N ==> ((const uint8_t *)output)[VG_W] == (uint8_t)(VG_XA ^ VG_XB))
+#define VXORB_ENTRY(N) \
+    if (VG_W < N) { VG_XA = ((const uint8_t *)input1)[VG_W]; VG_XB = ((const uint8_t *)input2)[VG_W]; }
+#define VC_skinny128_xor VXORB_CONTRACT(16)
+#define VE_skinny128_xor VXORB_ENTRY(16)
+#define VC_skinny64_xor VXORB_CONTRACT(8)
+#define VE_skinny64_xor VXORB_ENTRY(8)
+
+/* big-endian counter += inc modulo 2^(8*N), every carry chain and wrap-around */
+static vu128 VG_INC0;
+#define VC_skinny128_inc_counter \
+    __CPROVER_requires(__CPROVER_is_fresh(counter, 16) && inc <= 0xFF00 /* uint16_t accumulator: no overflow; call sites pass 1 */) \
+    __CPROVER_assigns(__CPROVER_object_upto(counter, 16), VG_INC0) \
+    __CPROVER_ensures(VBE128(counter) == VG_INC0 + inc)
+#define VE_skinny128_inc_counter VG_INC0 = VBE128(counter);
+#define VC_skinny64_inc_counter \
+    __CPROVER_requires(__CPROVER_is_fresh(counter, 8) && inc <= 0xFF00) \
+    __CPROVER_assigns(__CPROVER_object_upto(counter, 8), VG_INC0) \
+    __CPROVER_ensures(VBE64(counter) == ((VG_INC0 + inc) & (vu128)0xFFFFFFFFFFFFFFFFULL))
+#define VE_skinny64_inc_counter VG_INC0 = VBE64(counter);
+#endif /* !VERIF_ROLE_CTR */
+
 #endif
 static uint8_t VG_XA, VG_XB;   /* entry values of input1[W], input2[W] */
 #ifndef VERIF_ROLE_CTR
@@ -51,6 +113,37 @@ static uint8_t VG_XA, VG_XB;   /* entry values of input1[W], input2[W] */
     __CPROVER_loop_invariant((VG_W < verif_v0 && VG_W >= size) ==> ((const uint8_t *)output)[VG_W] == (uint8_t)(VG_XA ^ VG_XB)) \
     __CPROVER_loop_invariant((VG_W < size) ==> (((const uint8_t *)input1)[VG_W] == VG_XA && ((const uint8_t *)input2)[VG_W] == VG_XB)) \
     __CPROVER_decreases(size)
+#endif /* !VERIF_ROLE_CTR */
+
+/* ------------------------------------------------------------------------
+ * layer A lemmas for the block xor and counter increment helpers (functional contracts;
+ * inside the CTR coverage jobs the same functions carry their ROLE contracts instead).
+ * ---------------------------------------------------------------------- */
+#ifndef VERIF_ROLE_CTR
+#define VXORB_CONTRACT(N) \
+    __CPROVER_requires(__CPROVER_is_fresh(input1, N) && __CPROVER_is_fresh(input2, N)) \
+    __CPROVER_requires(__CPROVER_is_fresh(output, N) || __CPROVER_pointer_equals(output, (void *)input1)) \
+    __CPROVER_assigns(__CPROVER_object_upto(output, N), VG_XA, VG_XB) \
+    __CPROVER_ensures(VG_W < N ==> ((const uint8_t *)output)[VG_W] == (uint8_t)(VG_XA ^ VG_XB))
+#define VXORB_ENTRY(N) \
+    if (VG_W < N) { VG_XA = ((const uint8_t *)input1)[VG_W]; VG_XB = ((const uint8_t *)input2)[VG_W]; }
+#define VC_skinny128_xor VXORB_CONTRACT(16)
+#define VE_skinny128_xor VXORB_ENTRY(16)
+#define VC_skinny64_xor VXORB_CONTRACT(8)
+#define VE_skinny64_xor VXORB_ENTRY(8)
+
+/* big-endian counter += inc modulo 2^(8*N), every carry chain and wrap-around */
+static vu128 VG_INC0;
+#define VC_skinny128_inc_counter \
+    __CPROVER_requires(__CPROVER_is_fresh(counter, 16) && inc <= 0xFF00 /* uint16_t accumulator: no overflow; call sites pass 1 */) \
+    __CPROVER_assigns(__CPROVER_object_upto(counter, 16), VG_INC0) \
+    __CPROVER_ensures(VBE128(counter) == VG_INC0 + inc)
+#define VE_skinny128_inc_counter VG_INC0 = VBE128(counter);
+#define VC_skinny64_inc_counter \
+    __CPROVER_requires(__CPROVER_is_fresh(counter, 8) && inc <= 0xFF00) \
+    __CPROVER_assigns(__CPROVER_object_upto(counter, 8), VG_INC0) \
+    __CPROVER_ensures(VBE64(counter) == ((VG_INC0 + inc) & (vu128)0xFFFFFFFFFFFFFFFFULL))
+#define VE_skinny64_inc_counter VG_INC0 = VBE64(counter);
 #endif /* !VERIF_ROLE_CTR */
 
 #endif
